@@ -272,6 +272,13 @@ func (e *Env) RunProc(timeout time.Duration, env []string, dir string, bin strin
 	return p
 }
 
+// DiedOfDevicePanic: the process was ended by the simulated device's own panic (a dying source), unrecovered
+// because it surfaced in a goroutine of the library's own rather than in the caller. That is the end of the
+// simulated process, as it is when the caller sees the panic - fail-closed, and never a verdict.
+func (p Proc) DiedOfDevicePanic() bool {
+	return p.Exit == 2 && !p.TimedOut && (strings.Contains(p.Stderr, "panic: simulated device died") || strings.Contains(p.Stderr, "panic: simulated device failure"))
+}
+
 // JobDir returns a fresh directory for one worker process.
 func (e *Env) JobDir() string {
 	n := atomic.AddInt64(&e.jobCtr, 1)
